@@ -5,7 +5,7 @@
 #    (undone afterwards); 3. stores the mutant under /verif/seeded/<name>/ with the outcome.
 PROP=$1; PATCH=$(readlink -f $2); DEMO=$(readlink -f $3); META=$(readlink -f $4); NAME=$5; shift 5
 CHECKS=${@:-$PROP}
-export GOFLAGS=-mod=mod GOPROXY=off
+export GOFLAGS=-mod=mod GOPROXY=off GOEXPERIMENT=synctest
 W=/dev/shm/verif-mutwt.$$
 git -C /repo worktree prune
 git -C /repo worktree add -q --detach $W HEAD || exit 2
